@@ -236,7 +236,7 @@ func (w *world) migrate(retained uint64, plan migPlan) migResult {
 		}
 		f := &world{res: w.res, ch: w.ch, name: w.name, spec: w.spec, drv: w.fdrv, fixed: w.fixed, mig: w.mig, pcfg: w.pcfg,
 			height: w.height, l1: w.l1, fspec: w.fspec, cutoff: w.cutoff, minAgeDur: w.minAgeDur, isFork: true,
-			situation: "after-migration-crash", quiescent: true, lastLow: w.lastLow, noState: w.noState, extra: w.extra}
+			situation: "after-migration-crash", migrated: true, quiescent: true, lastLow: w.lastLow, noState: w.noState, extra: w.extra}
 		f.ops = append(append([]opRec{}, w.ops...), opRec{Op: "crash-image", N: uint64(i),
 			Note: "kill -9 right after this batch write of the migration above; the migration is run again on the image"})
 		f.nodeDB = img
@@ -441,6 +441,9 @@ func (w *world) finishMigration(retained uint64, mf string, unchangedSlot bool, 
 		return
 	}
 	w.situation = "after-migration"
+	if class == "ok" {
+		w.migrated = true
+	}
 	w.openNode(true)
 	if w.cutoff > 0 {
 		w.ask(fmt.Sprintf("sample %d", w.sampleNow()))
@@ -453,8 +456,43 @@ var _ db.KeyValueStore = (*hookDB)(nil)
 
 // --- scenarios ---------------------------------------------------------------------------------------------
 
+// The migration's own min-age floor (retentionFloorWithMinAge): cut-offs before the chain (every block still
+// young: nothing may be pruned), at / between block timestamps, after the pivot (no block young: count floor).
+func migrationMinAge(e *env, name string, seed uint64, newState bool) {
+	base, err := getBase(fmt.Sprintf("clean/%d/%v", seed, newState), 100+seed, newState, false, 22, 17)
+	if err != nil {
+		e.res.Note("%s: %v", name, err)
+		return
+	}
+	g := base.ch.g
+	cutoffs := []uint64{g.Bundles[0].Block.Timestamp - 7, g.Bundles[0].Block.Timestamp, g.Bundles[1].Block.Timestamp,
+		g.Bundles[6].Block.Timestamp, g.Bundles[6].Block.Timestamp + 1, g.Bundles[12].Block.Timestamp, g.Bundles[16].Block.Timestamp + 50}
+	for _, cutoff := range cutoffs {
+		for _, retained := range []uint64{2, 9} {
+			w := cloneWorld(e, base, prunerCfg{Retained: retained, L2PerPrune: 1, BatchBytes: hugeBatch}, cutoff, name,
+				map[string]any{"cutoff": cutoff, "retained": retained})
+			w.writeL1(14)
+			r := w.migrate(retained, migPlan{CancelAt: -1})
+			w.observe()
+			if !w.broken && !strings.HasPrefix(r.Outcome, "err") {
+				if w.store() && w.store() {
+					w.writeL1(16)
+					w.event("l1", 16, 0, noPlan())
+					w.observe()
+				}
+			}
+			w.close()
+		}
+	}
+}
+
 func migrationJobs(f lib.Flags) []job {
 	var jobs []job
+	for _, ns := range []bool{false, true} {
+		ns := ns
+		name := jobName("migration-min-age/seed=%d/new=%v", f.Seed, ns)
+		jobs = append(jobs, job{name: name, run: func(e *env) { migrationMinAge(e, name, f.Seed, ns) }})
+	}
 	for _, ns := range []bool{false, true} {
 		for _, mode := range []string{"plain", "cancel", "crash", "unchanged-slots"} {
 			ns, mode := ns, mode
@@ -530,6 +568,7 @@ func migrationScenario(e *env, name string, seed uint64, newState bool, mode str
 			return r.Writes
 		}
 		n := run(-1)
+		_ = n
 		if mode == "cancel" {
 			// the pipeline writes one batch per worker and phase (2·GOMAXPROCS+3 writes): cancel after the
 			// first ones, around both phase changes and after the last ones
